@@ -569,6 +569,16 @@ class World:
 
         task.add_done_callback(done)
 
+    def op_cancel(self, op):
+        """The application cancels one of its own calls still in progress (asyncio.timeout / wait_for
+        around it): CancelledError at the await the call is suspended in."""
+        t = self.calls.get(op["id"])
+        if t is None or t.done():
+            self.ev("skipped", what="cancel")
+            return
+        self.ev("cancel", id=op["id"])
+        t.cancel()
+
     def op_call_seq(self, op):
         """One user coroutine that makes several calls one after the other WITHOUT yielding in between
         (`await s.close(); s.open_socket()`): call / ret are logged inline."""
